@@ -846,8 +846,13 @@ class Model:
         else:
             raise ValueError("Response must be of class Response.")
         if all(isinstance(term, ACCEPTED_TERMS) for term in terms):
-            self.common_terms = [term for term in terms if not isinstance(term, GroupSpecificTerm)]
-            self.group_terms = [term for term in terms if isinstance(term, GroupSpecificTerm)]
+            # A model is a set of terms, only the first occurrence of each term is kept
+            unique = []
+            for term in terms:
+                if term not in unique:
+                    unique.append(term)
+            self.common_terms = [term for term in unique if not isinstance(term, GroupSpecificTerm)]
+            self.group_terms = [term for term in unique if isinstance(term, GroupSpecificTerm)]
         else:
             raise ValueError("There is a least one term of an unexpected class.")
 
